@@ -353,8 +353,8 @@ pub fn run(opts: Opts) -> i32 {
         report.replay_by_re_enumeration(path);
     }
     report.set_rule(
-        "every history of <=4 (quick) / <=5 (thorough) ops from {message, answered run, open run, run_ended for the oldest open run, side \
-         effects, cursor, checkpoint at the last message, checkpoint at the first message} plus macro threads (15/16/17/18/33 messages, \
+        "every history of <=4 (quick) / <=5 (thorough) ops from {message, answered run, open run with its real session frames, run_ended for the oldest open run, side \
+         effects, cursor, checkpoint at the last message, checkpoint at the first message} plus every history of <=5 (quick) / <=6 (thorough) ops from {message, open run, run_ended, run_ended with reason provider_error} that contains a failed end or has full length, plus macro threads (15/16/17/18/33 messages, \
          17 answered runs, 20 messages with a checkpoint after the 2nd, 5th and 11th, thorough: 18 x 600 KiB messages) x EVERY message as \
          anchor (macro threads: first, second, middle, 17th/16th from the end, last two): compile through the real entry on the warm \
          store, a restarted store, a store without the messages+runs cache family and a store without caches, compare with a reference of \
@@ -363,9 +363,16 @@ pub fn run(opts: Opts) -> i32 {
     report.assume("reference: cut = seq before the next message (else head); eligible = cumulative checkpoints with to_seq <= cut, latest frame per to_seq; hierarchy = latest, then the latest with to_seq <= floor(prev/2), <= 3, ascending; messages = last <= 16 with selected.to_seq < seq <= cut, each followed by the non-empty reply of the run that ended for it at or before the cut");
     report.assume("the engine-S sub-check of the design (compile racing an appender) is not built; stale-cache behaviour belongs to C04");
     let tier = report.tier();
-    let alphabet = vec![H::Msg, H::Run, H::RunSpawnOnly, H::RunEndOldest, H::Side, H::Cursor(0), H::Ckpt(0), H::Ckpt(1)];
+    // an open run has REAL session frames (its reply is in the log before its run_ended frame is)
+    let alphabet = vec![H::Msg, H::Run, H::RunOpenReal, H::RunEndOldest, H::Side, H::Cursor(0), H::Ckpt(0), H::Ckpt(1)];
     let mut hs = sequences(&alphabet, tier.pick(4, 5));
-    hs.retain(|h| h.iter().any(|o| matches!(o, H::Msg | H::Run | H::RunSpawnOnly)));
+    // overlapping runs that end late and / or failed after producing output
+    for h in sequences(&[H::Msg, H::RunOpenReal, H::RunEndOldest, H::RunEndOldestFailed], tier.pick(5, 6)) {
+        if h.iter().any(|o| matches!(o, H::RunEndOldestFailed)) || h.len() == tier.pick(5, 6) {
+            hs.push(h);
+        }
+    }
+    hs.retain(|h| h.iter().any(|o| matches!(o, H::Msg | H::Run | H::RunOpenReal)));
     report.set_extra("histories", json!(hs.len()));
     report.sample(json!({"history": hs[50].iter().map(name).collect::<Vec<_>>(), "anchors": "every message"}));
     report.sample(json!({"history": "33 x msg", "anchors": "first, second, middle, 17th/16th from the end, last two"}));
